@@ -274,6 +274,236 @@ def judge_shared(rep, case, res, alone, reply):
         rep.disagree("shared-sampler history: the model's alone-replay differs from its company run (isolation_shared)", case, want_alone, alone_m)
 
 
+# ---- the library's own sampler objects shared between conditions as FACTORS of different products / sums
+
+BASE_KINDS = ["grid", "grid", "random", "expo", "lhs", "gauss", "density"]
+
+
+def gen_factors(ctx, rng):
+    pool = ["x", "t", "y"]
+    nb = rng.randint(2, 4)
+    bases = []
+    for i in range(nb):
+        var = pool[i] if i < 2 else rng.choice(pool)
+        lb = cc.dy(rng, -4, 4, 2)
+        kind = rng.choice(BASE_KINDS)
+        bases.append(dict(id=i, var=var, kind=kind, n=rng.randint(1, 5), lb=js(lb), ub=js(lb + rng.randint(1, 4)),
+                          density=js(F(rng.randint(1, 5), 2)), exponent=rng.choice([2, 3])))
+    nc = rng.randint(2, 4)
+    conds = []
+    for cid in range(1, nc + 1):
+        cls = rng.choice(["pinn", "pinn", "pinn", "per", "aw"])
+        fixed = [b for b in bases if b["kind"] != "density"]
+        if not fixed:
+            cls = "pinn"       # a density sampler does not know its length before it sampled (documented): no len() users
+        if cls == "per":
+            # PeriodicCondition reads len(non_periodic_sampler) at construction
+            b = rng.choice(fixed) if fixed else None
+            if b is None:
+                cls = "pinn"
+            else:
+                pv = rng.choice([v for v in pool if v != b["var"]])
+                expr = ["b", b["id"]]
+        if cls != "per":
+            a = rng.choice(bases if cls == "pinn" else (fixed or bases))
+            others = [b for b in (bases if cls == "pinn" else (fixed or bases)) if b["var"] != a["var"]]
+            same = [b for b in (bases if cls == "pinn" else (fixed or bases)) if b["var"] == a["var"]]
+            r = rng.random()
+            if others and r < 0.6:
+                o = rng.choice(others)
+                expr = ["p", ["b", a["id"]], ["b", o["id"]]]
+                if rng.random() < 0.3:
+                    expr = ["p", ["s", ["b", a["id"]], ["b", rng.choice(same)["id"]]], ["b", o["id"]]]
+            elif r < 0.8:
+                expr = ["s", ["b", a["id"]], ["b", rng.choice(same)["id"]]]
+            else:
+                expr = ["b", a["id"]]
+        space = []
+        def walk(e):
+            if e[0] == "b":
+                if [bases[e[1]]["var"], 1] not in space:
+                    space.append([bases[e[1]]["var"], 1])
+            elif e[0] == "p":
+                walk(e[1]); walk(e[2])
+            else:
+                walk(e[1])
+        walk(expr)
+        full = ([[pv, 1]] if cls == "per" else []) + space
+        in_space = full[:]
+        rng.shuffle(in_space)
+        out_space = [["u", 1]]
+        net = {"in": in_space, "out": out_space, "body": [pe_to_json(cc.gen_pe(rng, scalar_vars(in_space), 2))]}
+        if cls == "per":
+            resid = dict(name="resid", params=["u_left", "u_right", space[0][0]], defaults=[], form="def", kwonly=0,
+                         body=[["+", ["-", ["v", "u_left", 0], ["v", "u_right", 0]], ["*", ["c", js(cc.dy(rng, 1, 4, 2))], ["v", space[0][0], 0]]]])
+        else:
+            resid = gen_fn(rng, "resid", space + out_space, rng.randint(1, 2), deg=2)
+            if "u" not in resid["params"]:
+                resid["params"].insert(0, "u")
+                resid["kwonly"] = 0
+        conds.append(dict(cid=cid, cls=cls, expr=expr, space=space, pv=pv if cls == "per" else None, net=net, resid=resid,
+                          static=True if cls == "aw" else rng.random() < 0.4))
+    pending = {c["cid"]: ["c"] + ["e"] * rng.randint(1, 3) for c in conds}
+    ops = []
+    while pending:
+        cid = rng.choice(sorted(pending))
+        kind = pending[cid].pop(0)
+        if not pending[cid]:
+            del pending[cid]
+        ops.append(dict(op=kind, cid=cid, seed=rng.randint(0, 10 ** 6)))
+    return dict(kind="factors", bases=bases, conds=conds, ops=ops)
+
+
+def _mk_base(tp, b):
+    dom = tp.domains.Interval(mk_space([[b["var"], 1]]), float(F(b["lb"])), float(F(b["ub"])))
+    S = tp.samplers
+    k = b["kind"]
+    if k == "grid":
+        return S.GridSampler(dom, n_points=b["n"])
+    if k == "random":
+        return S.RandomUniformSampler(dom, n_points=b["n"])
+    if k == "expo":
+        return S.ExponentialIntervalSampler(dom, b["n"], b["exponent"])
+    if k == "lhs":
+        return S.LHSSampler(dom, b["n"])
+    if k == "gauss":
+        import torch
+        m = (float(F(b["lb"])) + float(F(b["ub"]))) / 2
+        return S.GaussianSampler(dom, b["n"], mean=torch.tensor([m]), std=torch.tensor(0.5))
+    return S.RandomUniformSampler(dom, density=float(F(b["density"])))
+
+
+def _safe_len(obj):
+    try:
+        return int(len(obj))
+    except Exception:  # noqa  (a density sampler does not know its length before it sampled)
+        return None
+
+
+def run_factors(case, only=None):
+    C = classes()
+    tp, torch = C["tp"], C["torch"]
+    objs = [_mk_base(tp, b) for b in case["bases"]]
+    own = []
+    for b in case["bases"]:
+        torch.manual_seed(0)
+        own.append(len(_mk_base(tp, b).sample_points()))       # own points of an identical, untouched sampler
+    decl = [dict(n_points=o.n_points, density=o.density) for o in objs]
+
+    def build(e):
+        if e[0] == "b":
+            return objs[e[1]]
+        return build(e[1]) * build(e[2]) if e[0] == "p" else build(e[1]) + build(e[2])
+    state, outs, lens, rows = {}, [], [], []
+    sink = []
+    for op in case["ops"]:
+        if only is not None and op["cid"] != only:
+            continue
+        c = case["conds"][op["cid"] - 1]
+        torch.manual_seed(op["seed"])
+        nrows = None
+        try:
+            if op["op"] == "c":
+                net = c["net"]
+                model = C["PolyModel"](net["in"], net["out"], [pe_from_json(b) for b in net["body"]])
+                resid = build_fn(C, c["resid"], sink)
+                sampler = build(c["expr"])
+                if c["static"]:
+                    sampler = sampler.make_static()
+                rec = cc.Recorder(sampler)
+                if c["cls"] == "per":
+                    a = F(case["bases"][c["expr"][1]]["lb"])
+                    iv = tp.domains.Interval(mk_space([[c["pv"], 1]]), float(a), float(a) + 1.0)
+                    cond = tp.conditions.PeriodicCondition(model, iv, resid, non_periodic_sampler=sampler)
+                elif c["cls"] == "aw":
+                    cond = tp.conditions.AdaptiveWeightsCondition(model, sampler, resid)
+                else:
+                    cond = tp.conditions.PINNCondition(model, sampler, resid)
+                state[op["cid"]] = (cond, rec)
+                outs.append((op["cid"], "-"))
+            else:
+                cond, rec = state[op["cid"]]
+                before = len(rec.calls)
+                outs.append((op["cid"], float(cond.forward())))
+                if len(rec.calls) > before:
+                    nrows = len(rec.calls[-1]["rows"])
+        except Exception as e:  # noqa
+            outs.append((op["cid"], c04.classify_exc(e)))
+        rows.append(nrows)
+        lens.append([_safe_len(o) for o in objs])
+        del sink[:]
+    attrs_ok = all(o.n_points == d["n_points"] and o.density == d["density"] for o, d in zip(objs, decl))
+    return dict(outs=outs, lens=lens, rows=rows, own=own, attrs_ok=attrs_ok)
+
+
+def line_factors(case, res):
+    """the expressions that were sampled at top level, in order (a static sampler samples once)"""
+    def tok(e):
+        return f"b {e[1]}" if e[0] == "b" else f"{e[0]} {tok(e[1])} {tok(e[2])}"
+    es, which = [], []
+    for k, (op, nrows) in enumerate(zip(case["ops"], res["rows"])):
+        if op["op"] == "e" and nrows is not None:
+            c = case["conds"][op["cid"] - 1]
+            es.append(tok(c["expr"]))
+            which.append(k)
+    return f"lens {lst(res['own'])} {lst(es)}", which
+
+
+def judge_factors(rep, case, res, alone, reply, which):
+    rep.count("factors:bases=" + "+".join(sorted(b["kind"] for b in case["bases"])))
+    for c in case["conds"]:
+        rep.count(f"factors:{c['cls']}:" + {"b": "single", "p": "product", "s": "sum"}[c["expr"][0]] + (":static" if c["static"] else ""))
+    used_by = {}
+    for c in case["conds"]:
+        for tok_ in json_bases(c["expr"]):
+            used_by.setdefault(tok_, set()).add(c["cid"])
+    if any(len(v) >= 2 for v in used_by.values()):
+        rep.count("factors:base-sampler-object-in-several-conditions")
+    order = [o["op"] + str(o["cid"]) for o in case["ops"]]
+    for cid, o in res["outs"]:
+        if isinstance(o, str) and o != "-":
+            rep.fail(f"condition {cid} ({case['conds'][cid - 1]['cls']}) raised in the history {order}: {o}", case)
+    # the user's sampler objects: len() is the object's own number of points, whatever products were sampled
+    for k, ls in enumerate(res["lens"]):
+        for b, l, own in zip(case["bases"], ls, res["own"]):
+            if l is not None and l != own:
+                rep.fail(f"after operation {k} ({order[k]}) len() of the user's {b['kind']} sampler {b['id']} is {l}; the sampler creates "
+                         f"{own} points (it was used as a factor of {[c['expr'] for c in case['conds'] if b['id'] in json_bases(c['expr'])]})",
+                         case, detail=dict(op=k, lens=ls, own=res["own"]))
+                break
+        else:
+            continue
+        break
+    if not res["attrs_ok"]:
+        rep.fail("n_points / density of a user sampler object changed", case)
+    for c in case["conds"]:
+        mine = [o for k, o in res["outs"] if k == c["cid"]]
+        al = [o for k, o in alone[c["cid"]]["outs"]]
+        if mine != al:
+            rep.fail(f"condition {c['cid']} ({c['cls']}) returns {mine} in company (history {order}) but {al} when only its own operations are run",
+                     case, detail=dict(cid=c["cid"], company=mine, alone=al))
+    # correspondence: rows returned by every top-level sample and len() of every base object afterwards
+    if reply is None or reply.startswith("bad-op"):
+        rep.disagree("factors: model rejects", case, res["lens"], reply)
+        return
+    toks = reply.split()
+    if len(toks) != len(which):
+        rep.disagree("factors: number of samples", case, len(which), reply)
+        return
+    for k, t in zip(which, toks):
+        r, ls = t.split(":")
+        impl_ls = res["lens"][k]
+        ok = int(r) == res["rows"][k] and all(a is None or a == int(b) for a, b in zip(impl_ls, ls.split(",")))
+        if not ok:
+            rep.disagree("factors: rows of the sample / len() of the base samplers: drivers/C14.lean `lens` vs the real samplers", case,
+                         dict(op=k, rows=res["rows"][k], lens=impl_ls), t)
+            return
+
+
+def json_bases(e):
+    return [e[1]] if e[0] == "b" else json_bases(e[1]) + json_bases(e[2])
+
+
 def _next_sampler_cls():
     C = classes()
     if "NextSampler" not in C:
@@ -504,6 +734,8 @@ def gen_cases(ctx):
     cases = [gen_history(ctx, rng) for _ in range(ctx.scale(260, 2800))]
     for _ in range(ctx.scale(90, 1000)):
         cases.append(gen_shared(ctx, rng))
+    for _ in range(ctx.scale(120, 1300)):
+        cases.append(gen_factors(ctx, rng))
     for _ in range(ctx.scale(40, 450)):
         while True:
             d = c04.gen_don(ctx, rng)
@@ -521,6 +753,9 @@ def gen_cases(ctx):
 
 def key_of(case):
     c = dict(case)
+    if c["kind"] == "factors":
+        c["ops"] = [(o["op"], o["cid"]) for o in c["ops"]]
+        return c
     if c["kind"] in ("history", "shared"):
         c["ops"] = [(o["op"], o.get("cid", o.get("cids"))) for o in c["ops"]]
         return c
@@ -560,7 +795,11 @@ def run(ctx, rep, cases=None):
             given = [u for (cid, u, _) in r["used"] if cid == k["cid"]]
             al[k["cid"]] = run_shared(c, only=k["cid"], given=given)
         sres.append((r, al))
+    facs = [c for c in cases if c["kind"] == "factors"]
+    fres = [(run_factors(c), {k["cid"]: run_factors(c, only=k["cid"]) for k in c["conds"]}) for c in facs]
+    flines = [line_factors(c, r) for c, (r, _) in zip(facs, fres)]
     try:
+        freplies = common.run_driver("C14", [l for l, _ in flines])
         sreplies = common.run_driver("C14", [line_shared(c) for c in shs])
         replies = common.run_driver("C14", [line_history(c) for c in hist])
         preplies = common.run_driver("C14", plines, driver="C04")
@@ -577,6 +816,12 @@ def run(ctx, rep, cases=None):
                  sample=dict(conditions=[dict(cid=k["cid"], dict=k["dref"], static=k["static"], cls=k["cls"]) for k in c["conds"]],
                              ops=[(o["op"], o.get("cid", o.get("cids"))) for o in c["ops"]], implementation=r["outs"], model=m), kind="history")
         judge_history(rep, c, r, al, m)
+    for c, (r, al), m, (_, which) in zip(facs, fres, freplies, flines):
+        rep.case(key_of(c), True, sample=dict(bases=[(b["kind"], b["var"], b["n"]) for b in c["bases"]],
+                                              conditions=[(k["cls"], k["expr"], k["static"]) for k in c["conds"]],
+                                              ops=[(o["op"], o["cid"]) for o in c["ops"]], implementation=r["outs"], lens=r["lens"][-1:], model=m),
+                 kind="factors")
+        judge_factors(rep, c, r, al, m, which)
     for c, (r, al), m in zip(shs, sres, sreplies):
         rep.case(key_of(c), True, sample=dict(samplers=c["samplers"], conditions=[dict(cid=k["cid"], sampler=k["sid"], dict=k["dref"]) for k in c["conds"]],
                                               ops=[(o["op"], o["cid"]) for o in c["ops"]], implementation=r["outs"], model=m), kind="shared")
@@ -588,6 +833,15 @@ def run(ctx, rep, cases=None):
         rp = [per_case.get(i, {}).get(j) for j in range(c["calls"])]
         rep.case(key_of(c), True, sample=dict(case=key_of(c), losses=r.get("losses")), kind="periodic")
         judge_periodic(rep, c, r, rp)
+    # the function-set rule of the Lean model (resample iff the iteration key changes) vs the draws observed
+    def keytok(c, k):
+        v = (c.get("keys") or list(range(c["calls"])))[k]
+        return "none" if v is None else str(v)
+    fs_replies = common.run_driver("C14", ["fs " + lst([keytok(c, k) for k, _ in r.get("ran_steps", [])]) for c, (r, _) in zip(dons, dres)])
+    for c, (r, _), m in zip(dons, dres, fs_replies):
+        got = " ".join(str(st["batch"]) for st in r["steps"])
+        if not r["errors"] and got != m.strip():
+            rep.disagree("function-set batches: drivers/C14.lean `fs` vs the draws of the shared function set", c, got, m)
     for i, (c, (r, al)) in enumerate(zip(dons, dres)):
         rp = [per_case.get(("don", i), {}).get(j) for j in range(len(c["steps"]))]
         rep.case(key_of(c), True, sample=dict(case=key_of(c), losses=[st["loss"] for st in r["steps"]]), kind="deeponet")
